@@ -7,7 +7,7 @@ Import ListNotations.
 (* For any number of threads and EVERY accepted trace (every failing callback and occurrence, in either
    thread, every command history and interleaving, incl. failures while a pause is negotiated or while paused):
    once a background thread has flagged a failure at most ONE more control tick begins (the flag is never
-   cleared and every tick polls every flag); a failure of the control loop itself (save condition, state save)
+   cleared and every tick polls every flag) and the control thread sleeps its loop delay at most TWICE more; a failure of the control loop itself (save condition, state save)
    lets no further tick begin; and launch() raises exactly when the control loop or the final save failed. *)
 Theorem C03_monitor_holds_on_model : forall n kind max_attempts qmax with_web tr s,
   run n kind max_attempts qmax with_web init tr = Some s -> C03_ok tr = true.
@@ -49,9 +49,18 @@ Theorem C03_teardown_exactly_once : forall max_attempts qmax with_web tr s,
 Proof. exact C09_teardown_counts. Qed.
 Print Assumptions C03_teardown_exactly_once.
 
+(* at most two more loop delays of the control thread after a flagged failure *)
+Theorem C03_at_most_two_more_delays_on_model : forall n kind max_attempts qmax with_web tr s,
+  run n kind max_attempts qmax with_web init tr = Some s -> sleeps_after_flag false tr <= 2.
+Proof. exact C03_at_most_two_more_delays. Qed.
+Print Assumptions C03_at_most_two_more_delays_on_model.
+
 (* the monitor is not vacuous *)
 Example C03_rejects_carrying_on :
   C03_ok [(TBg 0, LSet (EExc 0)); (TCtl, LSaveCond false); (TCtl, LSaveCond false)] = false.
+Proof. reflexivity. Qed.
+Example C03_rejects_idling_with_a_dead_thread :
+  C03_ok [(TBg 0, LSet (EExc 0)); (TCtl, LSleep); (TCtl, LSleep); (TCtl, LSleep)] = false.
 Proof. reflexivity. Qed.
 Example C03_rejects_swallowed_control_failure :
   C03_ok [(TCtl, LSaveCondRaise); (TCtl, LLaunchDone false)] = false.
